@@ -871,6 +871,11 @@ class Evaluator:
                               self.argkeys(args, kwargs)))
 
     def builtin(self, name, args, kwargs, node, st):
+        if 'axis' in kwargs and len(args) == 1 and name in ('sum', 'mean', 'prod', 'cumsum', 'amax', 'amin', 'argmin', 'argmax', 'flip',
+                                                            'concatenate', 'squeeze', 'expand_dims', 'stack'):
+            # numpy reductions: f(a, axis=k) is f(a, k)
+            kwargs = dict(kwargs)
+            args = list(args) + [kwargs.pop('axis')]
         a = args
         if name in IDENTITY_CALLS and len(a) >= 1:
             return a[0]
